@@ -439,7 +439,16 @@ def r11(ctx):
         got = (render(src), steps, sink)
     except Exception as e:   # noqa
         got = "unrecognised: %s" % e
-    ctx.check("SendRequestsOutput::unrecoverable_errors", got == ("self.errors", [("filter", ["$x.1 is Unrecoverable"]), ("map", "$x.1.as:Unrecoverable.0")], "collect"),
+    want_p = ("self.errors", [("filter", ["$x.1 is Unrecoverable"]), ("map", "$x.1.as:Unrecoverable.0")], "collect")
+    if got != want_p:
+        # loop form: one complete loop over self.errors pushing exactly the Unrecoverable errors into the vector the result is made of
+        d_ = ctx.find(name="unrecoverable_errors", self_adt="barter::engine::action::send_requests::SendRequestsOutput", trait="")
+        vs = [v for v in common.elementwise_views(ctx, d_) if v["kind"] == "loop"]
+        if len(vs) == 1 and vs[0]["complete"] and vs[0]["source"] == "self.errors" and not vs[0]["calls"] and \
+                [(x[1], x[2]) for x in vs[0]["pushes"]] == [("$x.1.as:Unrecoverable.0", "($x.1 is Unrecoverable)")] and \
+                any(s_ == vs[0]["pushes"][0][0] for s_ in mir.subterms(b.return_term())):
+            got = want_p
+    ctx.check("SendRequestsOutput::unrecoverable_errors", got == want_p,
               "exactly the Unrecoverable errors of the failed requests, each of them", got=got, key="selects-unrecoverable")
     # Engine::process: a command output with an unrecoverable error is reported as errors (the audit becomes terminal)
     P = "barter::engine::Processor"
